@@ -710,7 +710,14 @@ func flowBlock(body *ast.BlockStmt, name string, src func(ast.Node) string, ment
 					out = append(out, src(st.Init))
 				}
 				if name == "" || mentions(st.Cond, name) {
-					out = append(out, "if "+src(st.Cond))
+					// a conjunction is emitted operand by operand (short strings: `decide` compares them in the kernel)
+					for i, part := range strings.Split(src(st.Cond), "&&") {
+						if i == 0 {
+							out = append(out, "if "+part)
+						} else {
+							out = append(out, "&&"+part)
+						}
+					}
 				}
 				out = append(out, flowBlock(st.Body, name, src, mentions)...)
 				if st.Else != nil {
